@@ -361,20 +361,37 @@ func TestCertTargets(t *testing.T) {
 type Shake struct {
 	HostPort string `json:"host_port"`
 	Repeat   int    `json:"repeat"`
+	// ExpireBefore > 0: before tunnel number ExpireBefore (counted from 0) the host's cached certificate is
+	// made to have expired AgoS seconds ago (hook H5): that tunnel must be presented a fresh, valid leaf
+	ExpireBefore int `json:"expire_before,omitempty"`
+	AgoS         int `json:"ago_s,omitempty"`
 }
 
 var subShake = ev.Register("cert-handshake",
-	"real CONNECT + TLS handshakes through the proxy for generated targets; the client verifies the presented chain against the configured CA for exactly the requested host (crypto/tls); repeated tunnels to one host present the same leaf; non-trivial = IP literal or mixed-case name; distinct by target",
+	"real CONNECT + TLS handshakes through the proxy for generated targets; the client verifies the presented chain against the configured CA for exactly the requested host (crypto/tls); repeated tunnels to one host present the same leaf; when the cached certificate is made to expire between two tunnels (hook H5) the next tunnel is presented a fresh valid leaf; non-trivial = IP literal or mixed-case name; distinct by target",
 	func(c Shake, o *ev.Obs) *ev.Failure {
 		env := px.New(px.Opts{})
 		defer env.Close()
 		o.Class("host:" + hostKind(c.HostPort))
 		o.NonTrivial = hostKind(c.HostPort) != "dns"
 		var first []byte
+		ca, _, _ := px.TestCA()
 		for i := 0; i < c.Repeat; i++ {
+			if c.ExpireBefore > 0 && i == c.ExpireBefore {
+				host, _, _ := net.SplitHostPort(c.HostPort)
+				if err := ca.VerifStoreExpired(host, time.Duration(c.AgoS)*time.Second); err != nil {
+					return ev.Failf("cert.harness", "expire: %v", err)
+				}
+				first = nil
+				o.Class("expired-between-tunnels")
+			}
 			tun, err := env.Connect(c.HostPort)
 			if err != nil {
-				return ev.Failf("cert.handshake-failed:"+hostKind(c.HostPort), "CONNECT %s: %v", c.HostPort, err)
+				sig := "cert.handshake-failed:" + hostKind(c.HostPort)
+				if c.ExpireBefore > 0 && i >= c.ExpireBefore {
+					sig = "cert.handshake-failed:after-expiry"
+				}
+				return ev.Failf(sig, "CONNECT %s (tunnel %d of %d, certificate expired before tunnel %d): %v", c.HostPort, i, c.Repeat, c.ExpireBefore, err)
 			}
 			leaf := tun.Leaf
 			tun.Close()
@@ -395,6 +412,11 @@ var subShake = ev.Register("cert-handshake",
 
 func TestCertHandshake(t *testing.T) {
 	subShake.CheckSalt(t, 3, ev.N(60, 4000), func(t *rapid.T) Shake {
-		return Shake{HostPort: drawHostPort(t), Repeat: rapid.IntRange(1, 3).Draw(t, "repeat")}
+		c := Shake{HostPort: drawHostPort(t), Repeat: rapid.IntRange(1, 4).Draw(t, "repeat")}
+		if c.Repeat >= 2 && rapid.Bool().Draw(t, "expire") {
+			c.ExpireBefore = rapid.IntRange(1, c.Repeat-1).Draw(t, "expire-before")
+			c.AgoS = rapid.SampledFrom([]int{1, 3600, 864001, 5184000}).Draw(t, "ago")
+		}
+		return c
 	})
 }
